@@ -167,6 +167,9 @@ class Inherit(TypedExpression):
                     last_name_node = child
                     continue
 
+                # e.g. `inherit ${a};`: refuse instead of dropping the attribute
+                raise ValueError(f"Unsupported inherit attr type: {child.type}")
+
             if before_names and names:
                 names[-1].after.extend(before_names)
 
